@@ -25,8 +25,8 @@ class SNal:
         self.first = first
         self.poc = poc
 
-    def model(self):
-        return "%d.%d.%d.%d.%d.%s" % (self.type, self.layer, 1 if self.first else 0, self.poc, self.stype, self.data.hex())
+    def model(self, data=None):
+        return "%d.%d.%d.%d.%d.%s" % (self.type, self.layer, 1 if self.first else 0, self.poc, self.stype, (self.data if data is None else data).hex())
 
 
 def gen_frames(r, nframes, el=True, rpu_pool=None, big=0, aud_prob=0.9, multi_slice=True, eos_mid=True, gop=None):
